@@ -554,6 +554,8 @@ fn gen_value(rng: &mut Rng, ty: Ty, after_dd: bool) -> String {
         Ty::Bool => pick(rng, &["true", "false"]),
         Ty::Char => pick(rng, &["x", "é", "€", "𐍈", " ", "\"", "7", "-"]),
         Ty::Str => pick(rng, &["plain", "two words", "", "é€𐍈", "q\"uote", "back\\slash", "-dash", "--", "  lead", "a=b", "help"]),
+        Ty::Hex => pick(rng, &["0x0", "0xff", "0xFFFFFFFF", "0x1f", "0x00000001"]),
+        Ty::Tag => pick(rng, &["#a", "#two words", "#é€𐍈", "##", "#-x", "#help"]),
     };
     if s.starts_with('-') && s.len() > 1 && !after_dd {
         // a leading dash would be read as an option: keep such values for after `--`
@@ -583,6 +585,8 @@ fn bad_value(rng: &mut Rng, ty: Ty) -> String {
         Ty::I32 => pick(rng, &["2147483648", "1_000"]),
         Ty::I64 | Ty::Isize => pick(rng, &["9223372036854775808", "w"]),
         Ty::I128 => pick(rng, &["170141183460469231731687303715884105728", "v"]),
+        Ty::Hex => pick(rng, &["ff", "0x", "0xg1", "0x100000000", "255", "0X1F", ""]),
+        Ty::Tag => pick(rng, &["a", "#", "", "x#y"]),
     }
 }
 
